@@ -59,6 +59,37 @@ fn decorate(t: &Tree) -> Tree {
     out
 }
 
+/// hand-built states beyond the enumerated bound (4 root names, 6-8 entries): directory links that form
+/// a cycle which does not pass through the source, a diamond, and a link to a directory that holds a
+/// link back to a sibling. The enumerated space reaches cycles through the source only.
+fn link_fixtures() -> Vec<Tree> {
+    let mk = |items: &[(&str, Node)]| {
+        let mut t = Tree::new();
+        for (k, n) in items {
+            t.insert(k, n.clone());
+        }
+        decorate(&t)
+    };
+    let (d, f, l) = (Node::dir, |x: &[u8]| Node::file(x), |t: &str| Node::link(t));
+    vec![
+        mk(&[("/a", d()), ("/a/a", l("/b")), ("/b", d()), ("/b/a", l("/c")), ("/b/ab", f(b"x")), ("/c", d()), ("/c/a", l("/b"))]),
+        mk(&[("/a", d()), ("/a/a", l("/b")), ("/b", d()), ("/b/a", l("/c")), ("/c", d()), ("/c/a", l("/ab")), ("/ab", d()), ("/ab/a", l("/b")), ("/ab/ab", f(b""))]),
+        mk(&[("/a", d()), ("/a/a", l("/c")), ("/a/ab", l("/c")), ("/c", d()), ("/c/a", f(b"x"))]),
+        mk(&[("/a", d()), ("/a/a", l("/b")), ("/b", d()), ("/b/a", l("/c")), ("/c", d()), ("/c/a", f(b"x")), ("/c/ab", l("/c/a"))]),
+    ]
+}
+
+/// calls aimed at the fixtures (run on every tree; on the others they fail early or copy nothing new)
+fn fixture_calls() -> Vec<Call> {
+    let mut out = vec![];
+    for (src, dst) in [("/a", "/z"), ("/b", "/z"), ("/a", "/c/z")] {
+        for follow in [true, false] {
+            out.push(Call { src: s(src), dst: s(dst), copy: Some((CopyMode::None, follow)) });
+        }
+    }
+    out
+}
+
 fn tree_json(t: &Tree) -> J {
     J::arr(t.nodes.iter().map(|(k, n)| {
         let (kind, v) = match &n.kind {
@@ -179,6 +210,7 @@ pub fn all_calls() -> Vec<Call> {
             out.push(Call { src: src.clone(), dst: dst.clone(), copy: None });
         }
     }
+    out.extend(fixture_calls());
     out
 }
 
@@ -1059,7 +1091,8 @@ pub fn worker(w: &mut WorkerCtx) {
         libc::umask(0o022);
     }
     let max_entries: usize = w.arg(0).parse().unwrap_or(3);
-    let trees: Vec<Tree> = enum_trees(&space(max_entries, LinkDomain::Resolving)).iter().map(decorate).collect();
+    let mut trees: Vec<Tree> = enum_trees(&space(max_entries, LinkDomain::Resolving)).iter().map(decorate).collect();
+    trees.extend(link_fixtures());
     let calls = all_calls();
     let sb = Sandbox::new("c09");
     let world = DiskWorld { root: sb.root.clone(), fs: Stdfs::new() };
@@ -1184,7 +1217,8 @@ pub fn run(ctx: &Ctx) -> i32 {
     }
     let mem_entries = ctx.tier.pick(4usize, 6usize);
     let std_entries = ctx.tier.pick(3usize, 6usize);
-    let trees: Vec<Tree> = enum_trees(&space(mem_entries, LinkDomain::Any)).iter().map(decorate).collect();
+    let mut trees: Vec<Tree> = enum_trees(&space(mem_entries, LinkDomain::Any)).iter().map(decorate).collect();
+    trees.extend(link_fixtures());
     let calls = all_calls();
     let c = Counters::default();
     let samples: Mutex<Vec<J>> = Mutex::new(vec![]);
